@@ -212,6 +212,23 @@ def check(case):
     I1, I2 = np.array(m.current), np.array(m2.current)
     if I1.shape != I2.shape or np.abs(I1 - I2).max() > 1e-12 * np.abs(I1).max():
         fails.append(('forms-differ:currents', 'currents differ by %.3g between the two addressing forms' % (np.abs(I1 - I2).max() / np.abs(I1).max())))
+    # each voltage acts on the pulse named with it: the currents are the sum of the currents of the same antenna with
+    # one of the sources at a time (named in the same form)
+    if len(case['sources']) >= 2 and not fails:
+        cnd = common.cond(m)
+        if np.isfinite(cnd) and cnd < 1e7:
+            tot = np.zeros_like(I1)
+            try:
+                for k in range(len(case['sources'])):
+                    ck = copy.deepcopy(case)
+                    ck['sources'] = [ck['sources'][k]]
+                    tot = tot + np.array(common.solved(ck).current)
+                e_ = np.abs(tot - I1).max() / np.abs(I1).max()
+                if e_ > 1e-9 * max(cnd, 10) * len(case['sources']):
+                    fails.append(('source:voltage-on-another-pulse', 'currents differ by %.3g from the sum of the currents of the sources '
+                                  'taken one at a time: a voltage does not act on the pulse named with it' % e_))
+            except build.Rejected as e:
+                fails.append(('source:single-source-variant-rejected', str(e)[:150]))
     t2 = m2.as_mininec(options=set())
 
     def section(t, a, b):
